@@ -24,7 +24,7 @@ const GatePoint = "search.gate"
 const IterPoint = "iter.sent"
 
 // GateBudget caps the evaluations of one run (real CPU time); beyond it the run is inconclusive.
-const GateBudget = 50000
+var GateBudget = 50000
 
 // Task is a goroutine of the code under test, named by role and ordinal of first appearance.
 type Task struct {
@@ -77,6 +77,7 @@ func goid() uint64 {
 
 // NewKernel installs the kernel as the simhook of /repo. Call from the bubble's root goroutine.
 func NewKernel(t *tape.Tape, res *core.RunResult) *Kernel {
+	GateBudget = core.Scale(50000, 200000)
 	k := &Kernel{T: t, Res: res, tasks: map[uint64]*Task{}, roleN: map[string]int{}, pass: map[string]bool{}, ctl: goid(), evHash: 1469598103934665603}
 	simhook.Set(k.Park)
 	return k
